@@ -165,8 +165,8 @@ class Transformation(object):
                     sd_d_rx=self.tf_sd.sd_d_rx, sd_d_ry=self.tf_sd.sd_d_ry,
                     sd_d_rz=self.tf_sd.sd_d_rz)
 
-            return Transformation(self.to_datum,
-                                  self.from_datum,
+            return Transformation(self.from_datum,
+                                  self.to_datum,
                                   other,
                                   round(self.tx + (self.d_tx * timediff), 8),
                                   round(self.ty + (self.d_ty * timediff), 8),
